@@ -794,6 +794,10 @@ func CancelQuery(qid uint64) {
 	rQuery, ok := allRunningQueries[qid]
 	arqMapLock.RUnlock()
 	if !ok {
+		// the query may not have been admitted yet
+		rQuery, ok = removeFromWaitingQueries(qid)
+	}
+	if !ok {
 		log.Debugf("CancelQuery: qid %+v does not exist!", qid)
 		return
 	}
@@ -814,6 +818,21 @@ func CancelQuery(qid uint64) {
 	}
 
 	rQuery.StateChan <- &QueryStateChanData{StateName: CANCELLED, Qid: qid}
+}
+
+// Removes qid from the queue of queries waiting to be run, if it is there.
+func removeFromWaitingQueries(qid uint64) (*RunningQueryState, bool) {
+	waitingQueriesLock.Lock()
+	defer waitingQueriesLock.Unlock()
+
+	for i, wsData := range waitingQueries {
+		if wsData.qid == qid {
+			waitingQueries = append(waitingQueries[:i], waitingQueries[i+1:]...)
+			return wsData.rQuery, true
+		}
+	}
+
+	return nil, false
 }
 
 func GetBucketsForQid(qid uint64) (map[string]*structs.AggregationResult, error) {
